@@ -23,21 +23,23 @@ unsafe fn nk256(key: &[u8; 32]) -> [__m128i; 15] { let mut r = [x86_models::from
 unsafe fn imc_standin(a: __m128i) -> __m128i { let mut b = x86_models::to_b(a); let mut i = 0; while i < 16 { b[i] = b[i].rotate_left(3) ^ 0xa5; i += 1; } x86_models::from_b(b) }
 
 unsafe fn bytes_eq<T>(a: *const T, b: *const T) -> bool {
+    // word-wise (all the compared types have sizes that are multiples of 8): 8x fewer loop iterations than byte-wise
     let n = core::mem::size_of::<T>();
-    let (p, q) = (a as *const u8, b as *const u8);
-    let mut ok = true;
+    let (p, q) = (a as *const u64, b as *const u64);
+    let mut ok = n % 8 == 0;
     let mut i = 0;
-    while i < n {
-        ok &= unsafe { *p.add(i) == *q.add(i) };
+    while i < n / 8 {
+        ok &= unsafe { core::ptr::read_unaligned(p.add(i)) == core::ptr::read_unaligned(q.add(i)) };
         i += 1;
     }
     ok
 }
 unsafe fn first_bytes_zero(p: *const u8, n: usize) -> bool {
-    let mut ok = true;
+    let q = p as *const u64;
+    let mut ok = n % 8 == 0;
     let mut i = 0;
-    while i < n {
-        ok &= unsafe { core::ptr::read_volatile(p.add(i)) } == 0;
+    while i < n / 8 {
+        ok &= unsafe { core::ptr::read_unaligned(q.add(i)) } == 0;
         i += 1;
     }
     ok
@@ -56,7 +58,7 @@ macro_rules! auto_family {
         #[kani::stub(crate::ni::expand::aes128_expand_key, nk128)]
         #[kani::stub(crate::ni::expand::aes192_expand_key, nk192)]
         #[kani::stub(crate::ni::expand::aes256_expand_key, nk256)]
-        #[kani::unwind(1000)]
+        #[kani::unwind(130)]
         fn $conv() {
             let k: [u8; $kl] = kani::any();
             let key = Array(k);
@@ -91,7 +93,7 @@ macro_rules! auto_family {
         #[kani::stub(crate::ni::expand::aes128_expand_key, nk128)]
         #[kani::stub(crate::ni::expand::aes192_expand_key, nk192)]
         #[kani::stub(crate::ni::expand::aes256_expand_key, nk256)]
-        #[kani::unwind(1000)]
+        #[kani::unwind(130)]
         fn $convf() {
             let k: [u8; $kl] = kani::any();
             let key = Array(k);
@@ -133,7 +135,7 @@ macro_rules! auto_family {
         #[kani::stub(crate::ni::expand::aes128_expand_key, nk128)]
         #[kani::stub(crate::ni::expand::aes192_expand_key, nk192)]
         #[kani::stub(crate::ni::expand::aes256_expand_key, nk256)]
-        #[kani::unwind(1000)]
+        #[kani::unwind(130)]
         fn $convc() {
             let k: [u8; $kl] = kani::any();
             let key = Array(k);
@@ -164,7 +166,7 @@ macro_rules! auto_family {
         #[kani::stub(crate::ni::expand::aes128_expand_key, nk128)]
         #[kani::stub(crate::ni::expand::aes192_expand_key, nk192)]
         #[kani::stub(crate::ni::expand::aes256_expand_key, nk256)]
-        #[kani::unwind(1000)]
+        #[kani::unwind(500)]
         fn $zero() {
             let k: [u8; $kl] = kani::any();
             let key = Array(k);
